@@ -24,6 +24,12 @@ RULE = ("random single-inheritance chains (depth<=3, attrs classes via attr.s/de
         "`@x.validator`, takes-self factories also as `@x.default`; argument VALUES that are mostly opaque tokens, None, '' "
         "and, for 12% of the values, objects with unusual special methods (equal to everything, equal to nothing, raising "
         "comparison, element-wise comparison with ambiguous truth value, falsy, unhashable). "
+        "Also harness-only: a second direct base (field-less plain mixin, dict or __slots__=(), before or after the chain "
+        "parent) on ~15% of the attrs classes; for ~20% of the chains the chain defined first is not a decoy but an EQUAL "
+        "TWIN (same module, qualnames, layout; defaults of a str subclass and callback objects that compare equal to the "
+        "real chain's but print a TWIN tag). MODELLED: 20% of the converters are chains (`converter=[..]` / converters.pipe) "
+        "of 2-3 members mixing plain callables and Converter(takes_self, takes_field) instances, every member its own "
+        "traced callback (Attr.pipe). "
         "Non-trivial = the class has >=1 field that is not (mandatory, positional, no converter); distinct = distinct (class spec, call). "
         "Thorough tier only (T3): additionally one `script` case per generated class -- the real source text of its "
         "__init__/__attrs_init__ parsed into the IR of Model/InitIR.lean and compared syntactically with the model generator's script")
@@ -40,7 +46,10 @@ ASSUMPTIONS = [
 ]
 EXHAUSTIVE = {"quick": False, "thorough": False}
 BUDGET_S = {"quick": 45, "thorough": 480}
-LEVEL_TEXT = ("Lean theorems about the executable model of _make_init_script/_attrs_to_init_script/_determine_setters/"
+LEVEL_TEXT = ("[converter chains: `pipe()` is modelled as the left-to-right run of its members (`runConvs`, `pipeVal`, `pipeEvents`; "
+              "`C01_pipe_member_once`, `C02_pipe_left_to_right`, `C02_pipe_events`), the one call the generated script makes is "
+              "checked by T3] "
+              "Lean theorems about the executable model of _make_init_script/_attrs_to_init_script/_determine_setters/"
               "_is_slot_attr and CPython argument binding (see Properties/C01.lean); tied to /repo by differential "
               "correspondence over random class chains x call shapes comparing signature, annotations, every field's "
               "symbolic value, the exception kind and -- per call -- WHICH converter / factory callbacks ran, in order (event "
@@ -55,6 +64,7 @@ LEVEL_TEXT = ("Lean theorems about the executable model of _make_init_script/_at
               "parameters (<=64 calls, each callback failing in turn) against C01.spec/C02.spec.")
 
 
+PIPES = 0.2      # share of fields whose converter is a chain (list / pipe) of 2-3 members
 ODD = 0.12       # share of argument values that are objects with unusual __eq__/__ne__/__bool__/__hash__
 
 
@@ -76,7 +86,7 @@ def is_script(case):
 def gen_cases(tier, rng):
     n_classes = 5000 if tier == "quick" else 80000
     for _ in range(n_classes):
-        h = ib.gen_hspec(rng)
+        h = ib.gen_hspec(rng, pipes=PIPES)
         try:
             ib.build(h)
         except Exception as e:  # noqa: BLE001 -- the generator only emits valid definitions; count and skip
@@ -192,7 +202,17 @@ def history_dist(case):
         "v_shared": sum(1 for f in fs if f.get("validators") and f.get("v_shared")),
         "v_deco": sum(1 for f in fs if f.get("validators") and f.get("v_deco")),
         "dflt_decorator": sum(1 for f in fs if f.get("default") == "decorator"),
+        "side_base": "+".join((cs.get("side_base") or {}).get("pos", "-")[0] for cs in cl),
+        "eq_twin": bool(cl[0].get("eq_twin")),
+        "pipes": ",".join(sorted("".join("p" if k == "plain" else "C" for k in f["pipe"]) for f in expected_pipes(case))) or "-",
     }
+
+
+def expected_pipes(case):
+    try:
+        return [f for f in ib.expected_fields(case["hspec"]) if f.get("converter") == "pipe"]
+    except Exception:  # noqa: BLE001
+        return []
 
 
 def _plain_token(v, i):
@@ -204,7 +224,7 @@ def shrink_history(case, remake):
     h = case["hspec"]
     call = case["call"]
     for ci, cs in enumerate(h["classes"]):
-        for key in ("siblings", "deco", "field_transformer"):
+        for key in ("siblings", "deco", "field_transformer", "side_base", "eq_twin"):
             if cs.get(key):
                 h2 = copy.deepcopy(h)
                 h2["classes"][ci].pop(key)
@@ -240,6 +260,22 @@ def shrink_history(case, remake):
                 h2 = copy.deepcopy(h)
                 h2["classes"][ci]["fields"][fi]["default"] = "factory_self"
                 yield from remake(h2, call)
+            if f.get("converter") == "pipe":
+                # a single member, then a shorter chain, then the other spelling
+                for k in dict.fromkeys(f["pipe"]):
+                    h2 = copy.deepcopy(h)
+                    h2["classes"][ci]["fields"][fi]["converter"] = k
+                    h2["classes"][ci]["fields"][fi].pop("pipe")
+                    yield from remake(h2, call)
+                if len(f["pipe"]) > 2:
+                    for mi in range(len(f["pipe"])):
+                        h2 = copy.deepcopy(h)
+                        del h2["classes"][ci]["fields"][fi]["pipe"][mi]
+                        yield from remake(h2, call)
+                if f.get("pipe_style") == "pipe":
+                    h2 = copy.deepcopy(h)
+                    h2["classes"][ci]["fields"][fi]["pipe_style"] = "list"
+                    yield from remake(h2, call)
     if h["classes"][0].get("exc_root") not in (None, "Exception"):
         h2 = copy.deepcopy(h)
         h2["classes"][0]["exc_root"] = "Exception"
@@ -273,11 +309,13 @@ def shrink(case):
     if len(h["classes"]) > 1:
         for ci in range(len(h["classes"]) - 1):
             h2 = copy.deepcopy(h)
-            eb, er = h2["classes"][0].get("exc_base"), h2["classes"][0].get("exc_root")
+            eb, er, tw = h2["classes"][0].get("exc_base"), h2["classes"][0].get("exc_root"), h2["classes"][0].get("eq_twin")
             del h2["classes"][ci]
             h2["classes"][0]["exc_base"] = eb
             if er:
                 h2["classes"][0]["exc_root"] = er
+            if tw:
+                h2["classes"][0]["eq_twin"] = True
             yield from _remake(h2, case["call"])
     for ci, cs in enumerate(h["classes"]):
         for k, v in (("slots", None), ("kw_only", False), ("cache_hash", False), ("pre", "none"), ("post", False),
